@@ -37,6 +37,8 @@ def direct_content_writes(events, op=""):
 def trace_monitor(r, ops, where=""):
     fs_ = []
     for i, ev in enumerate(r.events):
+        if i < len(ops) and ops[i].split(" ")[0] in ENV_OPS:
+            continue          # the test's own manipulation of the directory, not a library call
         bad = direct_content_writes(ev)
         if bad:
             op = ops[i] if i < len(ops) else "?"
@@ -307,6 +309,12 @@ def kill_cases(r, n):
         algo = r.pick(L.ALGOS)
         old = (r.pick(L.ALGOS), b"old value " + bytes([i])) if r.chance(0.6) else None
         new = (algo, G.data(r, r.pick([0, 1, 5, 300, 5000])) + b"N")
+        # sometimes the bytes being written are already in the cache under another key (or are the key's own
+        # current value): publishing them again must not put that copy at risk at any kill point
+        if r.chance(0.3):
+            new = ("sha256", b"other value")
+        elif old and r.chance(0.2):
+            new = old
         setup = [w_oneshot("s", "sha256", b"other", b"other value")]
         if old:
             setup.append(w_oneshot("s", old[0], key, old[1]))
